@@ -709,9 +709,10 @@ class CHECK(Check):
         return P
 
     def known(self, case, problem, entries):
-        """F9: exactly one data row + sensitive_features passed as a numpy array -> MetricFrame raises ValueError
-        (np.squeeze makes the feature 0-d).  Only the MetricFrame / named-metric call sites on the un-replicated
-        variants are affected; everything else about such a case is still judged."""
+        """F9 (repaired in /repo by d5b1a8a, so known_findings.json no longer lists it and this matches nothing;
+        kept so that re-listing F9 would again scope the finding exactly): one data row + sensitive_features passed
+        as a numpy array -> MetricFrame raised ValueError (np.squeeze made the feature 0-d).  Only the MetricFrame /
+        named-metric call sites on the un-replicated variants were affected; everything else is still judged."""
         for e in entries:
             if e.get("id") != "F9":
                 continue
